@@ -68,13 +68,21 @@ def proj(c):
     return proj_graph(c.graph, c.name, c.blackboxes)
 
 
-def build(p):
-    """Inverse of proj: build a Circuit directly on the graph (no API checks)."""
+def build(p, order_seed=None):
+    """Inverse of proj: build a Circuit directly on the graph (no API checks).
+    order_seed: insert the nodes in a seeded random order instead of the topological one (iteration over a graph
+    follows insertion order, so `for n in c` then meets gates before their fan-in)."""
     import networkx as nx
     import circuitgraph as cg
 
     g = nx.DiGraph()
-    for i, n in enumerate(p["names"]):
+    idxs = list(range(len(p["names"])))
+    if order_seed is not None:
+        import random
+
+        random.Random("ins/%s" % order_seed).shuffle(idxs)
+    for i in idxs:
+        n = p["names"][i]
         attrs = {}
         if p["ty"][i] != NOTYPE:
             attrs["type"] = p["ty"][i]
